@@ -3,12 +3,14 @@
 import json, os, shutil, sys
 prop, m, src, needs, ran = sys.argv[1:6]
 caught = sys.argv[6] if len(sys.argv) > 6 else ""
-d = f"/verif/seeded/{prop}-{m}"
+import os as _os
+tag = _os.environ.get("SEED_TAG", "")
+d = f"/verif/seeded/{prop}-{tag}{m}"
 os.makedirs(d, exist_ok=True)
 shutil.copy(f"{src}/{m}.diff", f"{d}/patch.diff")
 shutil.copy(f"{src}/{m}_demo.cpp", f"{d}/demo.cpp")
 notes = open(f"{src}/notes.md").read() if os.path.exists(f"{src}/notes.md") else ""
-json.dump({"property": prop, "id": f"{prop}-{m}", "breaks": prop, "needs_to_manifest": needs,
+json.dump({"property": prop, "id": f"{prop}-{tag}{m}", "breaks": prop, "needs_to_manifest": needs,
            "confirmed_by": "vp/confirm_seed.sh in the scratch worktree /tmp/seed/confirm: demo exits 0 on the clean tree and non-zero with the patch; tree rebuilt with ninja; 138/138 baseline tests still pass with the patch",
            "what_i_ran": ran, "detected_by": caught, "author": "independent sub-agent given only the property text and a scratch worktree"},
           open(f"{d}/meta.json", "w"), indent=1)
